@@ -269,7 +269,7 @@ Example setup_py_partial_applies :
   (false = true -> get k_cythonize ex_state <> None) /\
   forallb (fun m => is_plain (snd m)) (mods ex_state) = true /\
   (forall n, In n fake_names -> mmem n (mods ex_state) = false) /\
-  mod_ops_ok (mods ex_state) (fst ex_program) /\ no_meta_ins (fst ex_program) /\ callable e sp = true.
+  mod_ops_ok (rel_recognised e sp) (mods ex_state) (fst ex_program) /\ no_meta_ins (fst ex_program) /\ callable e sp = true.
 Proof.
   cbv zeta. split; [discriminate|].
   split; [apply unaliased_b_sound; vm_compute; reflexivity|].
